@@ -901,28 +901,45 @@ class Abort(WriteSpec):
         return [Outcome('ok', post=post)]
 
 
-class BlobTpcAbort(WriteSpec):
+class BlobTpcAbort(Spec):
+    """works for every storage using the mixin (FileStorage itself, the BlobStorage wrapper): the
+    state is reached through self.dirty_oids and self.fshelper only"""
     func = 'ZODB.blob:BlobStorageMixin._blob_tpc_abort'
     props = ('C13', 'C05')
+    assumptions = tuple(blobmodel.ASSUMPTIONS)
+
+    def parts(self, c, selfv, old=None):
+        S = old[selfv.id] if old is not None else c.obj(selfv).f
+        dirty = S['dirty_oids']
+        blobfs = c.obj(S['fshelper']).meta['fs']
+        return dirty, blobfs
 
     def setup(self, c, case=None):
-        h, t = self.mk(c, None)
-        c.roles.nested_array(c.obj(h.dirty).f['set'], 'boid', 'btid')
-        c.roles.nested_array(c.obj(h.blobfs).f['files'], 'boid', 'btid')
-        return {'self': h.self}
+        blobfs = blobmodel.new_blobfs(c)
+        dirty = blobmodel.new_dirty(c)
+        fsh = blobmodel.new_fshelper(c, blobfs)
+        me = c.new_obj('inst', 'ZODB.blob:BlobStorageMixin', {'dirty_oids': dirty, 'fshelper': fsh},
+                       {'name': 'storage'})
+        c.roles.nested_array(c.obj(dirty).f['set'], 'boid', 'btid')
+        c.roles.nested_array(c.obj(blobfs).f['files'], 'boid', 'btid')
+        return {'self': me}
 
     def modifies(self, c, E):
-        h = ghost_of(c, E['self'])
-        return {(h.dirty.id, 'set'), (h.blobfs.id, 'files')}
+        dirty, blobfs = self.parts(c, E['self'])
+        return {(dirty.id, 'set'), (blobfs.id, 'files')}
 
     def outcomes(self, c, E):
-        h = ghost_of(c, E['self'])
-        d0 = c.obj(h.dirty).f['set']
-        bf0 = c.obj(h.blobfs).f['files']
+        dirty, blobfs = self.parts(c, E['self'])
+        d0 = c.obj(dirty).f['set']
+        bf0 = c.obj(blobfs).f['files']
+        c.roles.nested_array(d0, 'boid', 'btid')
+        c.roles.nested_array(bf0, 'boid', 'btid')
 
         def post(c, E, r):
-            d1 = c.obj(h.dirty).f['set']
-            bf1 = c.obj(h.blobfs).f['files']
+            d1 = c.obj(dirty).f['set']
+            bf1 = c.obj(blobfs).f['files']
+            c.roles.nested_array(d1, 'boid', 'btid')
+            c.roles.nested_array(bf1, 'boid', 'btid')
             return [
                 ('dirty-blob-files-removed', All(['boid', 'btid'], lambda x, y: z3.Implies(
                     blobmodel.has(d0, x, y), z3.Not(blobmodel.has(bf1, x, y))))),
@@ -936,11 +953,11 @@ class BlobTpcAbort(WriteSpec):
 
     def _inv(self, c, fr):
         E = c.E
-        h = ghost_of(c, E['self'])
-        d0 = E.old[h.dirty.id]['set']
-        bf0 = E.old[h.blobfs.id]['files']
-        d1 = c.obj(h.dirty).f['set']
-        bf1 = c.obj(h.blobfs).f['files']
+        dirty, blobfs = self.parts(c, E['self'])
+        d0 = E.old[dirty.id]['set']
+        bf0 = E.old[blobfs.id]['files']
+        d1 = c.obj(dirty).f['set']
+        bf1 = c.obj(blobfs).f['files']
         return [
             ('remaining-subset', All(['boid', 'btid'], lambda x, y: z3.Implies(
                 blobmodel.has(d1, x, y), blobmodel.has(d0, x, y)))),
@@ -953,11 +970,11 @@ class BlobTpcAbort(WriteSpec):
         ]
 
     def _havoc(self, c, fr):
-        h = ghost_of(c, c.E['self'])
-        c.obj(h.dirty).f['set'] = z3.Array(fresh_name('dirty'), I, blobmodel.AIB)
-        c.obj(h.blobfs).f['files'] = z3.Array(fresh_name('files'), I, blobmodel.AIB)
-        c.roles.nested_array(c.obj(h.dirty).f['set'], 'boid', 'btid')
-        c.roles.nested_array(c.obj(h.blobfs).f['files'], 'boid', 'btid')
+        dirty, blobfs = self.parts(c, c.E['self'])
+        c.obj(dirty).f['set'] = z3.Array(fresh_name('dirty'), I, blobmodel.AIB)
+        c.obj(blobfs).f['files'] = z3.Array(fresh_name('files'), I, blobmodel.AIB)
+        c.roles.nested_array(c.obj(dirty).f['set'], 'boid', 'btid')
+        c.roles.nested_array(c.obj(blobfs).f['files'], 'boid', 'btid')
 
     @property
     def loops(self):
